@@ -19,7 +19,8 @@ EqGroupFailed(e) ==
     CASE x = "C03.RawReflexive" -> \E i \in I : ~e.raw[i][i]
       [] x = "C03.RawSymmetric" -> \E i, j \in I : e.raw[i][j] # e.raw[j][i]
       [] x = "C03.RawTransitive" -> \E i, j \in I : e.raw[i][j] /\ \E k \in I : e.raw[j][k] /\ ~e.raw[i][k]
-      [] x = "C03.SameAbstractIsEqual" -> \E i, j \in I : e.vals[i] = e.vals[j] /\ ~e.raw[i][j] /\ ~SameBinaryNoneHolds(e, i, j)
+      \* (src: physical values built from one abstract string through different input spellings are the same abstract value)
+      [] x = "C03.SameAbstractIsEqual" -> \E i, j \in I : (e.vals[i] = e.vals[j] \/ (Has(e, "src") /\ e.src[i] = e.src[j] /\ e.vals[i].ty.k # "number")) /\ ~e.raw[i][j] /\ ~SameBinaryNoneHolds(e, i, j)
       [] x = "C03.EqualsSymmetric" -> \E i, j \in I : e.eq[i][j] # e.eq[j][i]
       [] x = "C03.NullsEqual" -> \E i, j \in I : e.vals[i].st = "null" /\ e.vals[j].st = "null" /\ e.eq[i][j] # "T"
       [] x = "C03.EqualsIffRaw" -> \E i, j \in I : WhollyKnown(e.vals[i]) /\ WhollyKnown(e.vals[j]) /\ TEquals(e.vals[i].ty, e.vals[j].ty)
